@@ -96,6 +96,55 @@ impl tree_hash::TreeHash for Fu64 {
     }
 }
 
+/// The `bu16` kind: a `u16` that lives behind a pointer (`Box<u16>`), so that its in-memory size (8) and alignment have
+/// nothing to do with its SSZ size (2) and packing factor (16). Everything SSZ / tree-hash is delegated to `u16`;
+/// the model and the reference treat it as `u16`.
+#[derive(Debug, Default, Clone, PartialEq, Serialize, Deserialize)]
+#[serde(transparent)]
+pub struct Bu16(pub Box<u16>);
+
+impl Encode for Bu16 {
+    fn is_ssz_fixed_len() -> bool {
+        true
+    }
+    fn ssz_fixed_len() -> usize {
+        2
+    }
+    fn ssz_bytes_len(&self) -> usize {
+        2
+    }
+    fn ssz_append(&self, buf: &mut Vec<u8>) {
+        self.0.ssz_append(buf)
+    }
+}
+
+impl Decode for Bu16 {
+    fn is_ssz_fixed_len() -> bool {
+        true
+    }
+    fn ssz_fixed_len() -> usize {
+        2
+    }
+    fn from_ssz_bytes(bytes: &[u8]) -> Result<Self, ssz::DecodeError> {
+        u16::from_ssz_bytes(bytes).map(|x| Bu16(Box::new(x)))
+    }
+}
+
+impl tree_hash::TreeHash for Bu16 {
+    fn tree_hash_type() -> tree_hash::TreeHashType {
+        tree_hash::TreeHashType::Basic
+    }
+    fn tree_hash_packed_encoding(&self) -> tree_hash::PackedEncoding {
+        self.0.tree_hash_packed_encoding()
+    }
+    fn tree_hash_packing_factor() -> usize {
+        16
+    }
+    fn tree_hash_root(&self) -> tree_hash::Hash256 {
+        self.0.tree_hash_root()
+    }
+}
+
 /// Everything the driver needs from an element type.
 pub trait Elem:
     milhouse::Value + Send + Sync + Default + Serialize + DeserializeOwned + 'static
